@@ -1681,6 +1681,18 @@ def bytes_attr(E, v, name):
             E.path.ghost.setdefault('str_bytes', {})[s.h.get_id()] = b
             return s
         return Builtin('bytes.decode', decode)
+    if name == 'join':
+        def join(parts):
+            items = concrete_iter(E, parts)
+            if not all(is_byteslike(x) for x in items):
+                E.throw('TypeError', 'sequence item: expected a bytes-like object')
+            res = lift_bytes(b'')
+            for i, x in enumerate(items):
+                if i:
+                    res = b_concat(res, v)
+                res = b_concat(res, x)
+            return SByteArray(res) if is_ba else res
+        return Builtin('bytes.join', join)
     if name == 'hex':
         return Builtin('bytes.hex', lambda *a: E.fresh_str('hex'))
     if name == 'extend' and isinstance(v, SByteArray):
